@@ -39,7 +39,8 @@ class Contract:
     def __init__(self, target, args=None, requires=None, ensures=(), outcomes=None,
                  returns=None, effect=None, result=None, setup=None, covers=None,
                  inputs_of=None, replay=None, note='', label=None,
-                 outputs=None, lemmas=(), overrides=None, exc_fields=None, pure=False):
+                 outputs=None, lemmas=(), overrides=None, exc_fields=None, pure=False,
+                 kernel=None):
         self.target = target
         self.fn = resolve(target)
         self.args = dict(args or {})
@@ -55,6 +56,7 @@ class Contract:
         self.note = note
         self.label = label or target
         self.lemmas = list(lemmas)     # spec functions f(x: str) assumed as forall x. f(x)
+        self.kernel = resolve(kernel) if isinstance(kernel, str) else kernel   # real function a driver wraps
         self.pure = pure              # deterministic, effect-free: usable under quantifiers at call sites
         self.exc_fields = dict(exc_fields or {})   # exception class -> {field: type} (call sites)
         self.overrides = dict(overrides or {})   # env attributes set while verifying this contract
@@ -83,6 +85,7 @@ class Env:
         self.current_target = None
         self.touched = {}
         self.trusted = []           # human readable list of assumed contracts
+        self.object_hooks = []      # callables real_object -> schema name or None (e.g. loggers)
         self.site_hooks = {}        # (caller qualname, callee name) -> spec fn over the caller's locals
         self.abstract_regex = False  # regex membership as uninterpreted predicates (+ lemmas)
         self.abstract_sets = set()  # names of seq inputs only ever used through set(...)
